@@ -146,38 +146,38 @@ struct ValW {
             }
             case Node::UInt: {
                 LibCall lc;
-                v = (SizeT64)n.u;
+                assign_in_own_unit(v, (SizeT64)n.u);
                 break;
             }
             case Node::Int: {
                 LibCall lc;
-                v = (SizeT64I)n.i;
+                assign_in_own_unit(v, (SizeT64I)n.i);
                 break;
             }
             case Node::Double: {
                 LibCall lc;
-                v = n.d;
+                assign_in_own_unit(v, n.d);
                 break;
             }
             case Node::True: {
                 LibCall lc;
-                v = true;
+                assign_in_own_unit(v, true);
                 break;
             }
             case Node::False: {
                 LibCall lc;
-                v = false;
+                assign_in_own_unit(v, false);
                 break;
             }
             case Node::Null: {
                 LibCall lc;
-                v = nullptr;
+                assign_in_own_unit(v, nullptr);
                 break;
             }
             case Node::String: {
                 ArenaText<C> t(n.str);
                 LibCall      lc;
-                v = SVT{(const C *)t.ptr, (SizeT)t.len};
+                assign_in_own_unit(v, SVT{(const C *)t.ptr, (SizeT)t.len});
                 break;
             }
             case Node::Ptr: {
@@ -188,13 +188,13 @@ struct ValW {
             case Node::Array: {
                 {
                     LibCall lc;
-                    v = ArrT{};
+                    assign_in_own_unit(v, ArrT{});
                 }
                 for (auto &it : n.items) {
                     VT *slot;
                     {
                         LibCall lc;
-                        v += VT{};
+                        append_in_own_unit(v, VT{});
                         slot = v.GetArray()->Last();
                     }
                     assign_node(*slot, it);
@@ -204,7 +204,7 @@ struct ValW {
             case Node::Object: {
                 {
                     LibCall lc;
-                    v = ObjT{};
+                    assign_in_own_unit(v, ObjT{});
                 }
                 for (auto &m : n.members) {
                     ArenaText<C> t(m.first);
@@ -673,23 +673,23 @@ struct ValW {
             case V_ASSIGN_SCALAR: {
                 LibCall lc;
                 switch (var % 12) {
-                    case 0: *v = (SizeT64)tok; *n = Node::mku(tok); break;
-                    case 1: *v = (SizeT64I)(-(int64_t)(tok >> 1)); *n = Node::mki(-(int64_t)(tok >> 1)); break;
+                    case 0: assign_in_own_unit(*v, (SizeT64)tok); *n = Node::mku(tok); break;
+                    case 1: assign_in_own_unit(*v, (SizeT64I)(-(int64_t)(tok >> 1))); *n = Node::mki(-(int64_t)(tok >> 1)); break;
                     case 2: {
                         double d = some_double(tok);
-                        *v       = d;
+                        assign_in_own_unit(*v, d);
                         *n       = Node::mkd(d);
                         break;
                     }
-                    case 3: *v = (int)(tok & 0x7FFF) - 100; *n = Node::mki((int)(tok & 0x7FFF) - 100); break;
-                    case 4: *v = (unsigned int)(tok & 0xFFFFFF); *n = Node::mku(tok & 0xFFFFFF); break;
-                    case 5: *v = (unsigned short)(tok & 0xFFFF); *n = Node::mku(tok & 0xFFFF); break;
-                    case 6: *v = (short)(tok & 0xFFFF); *n = Node::mki((short)(tok & 0xFFFF)); break;
-                    case 7: *v = (float)((int)(tok & 0xFF) - 100) * 0.25f; *n = Node::mkd((double)((float)((int)(tok & 0xFF) - 100) * 0.25f)); break;
-                    case 8: *v = (tok & 1) != 0; *n = Node::mk((tok & 1) ? Node::True : Node::False); break;
-                    case 9: *v = nullptr; *n = Node::mk(Node::Null); break;
-                    case 10: *v = (SizeT64)0xFFFFFFFFFFFFFFFFULL - (tok & 3); *n = Node::mku(0xFFFFFFFFFFFFFFFFULL - (tok & 3)); break;
-                    default: *v = (SizeT64I)(INT64_MIN + (int64_t)(tok & 3)); *n = Node::mki(INT64_MIN + (int64_t)(tok & 3)); break;
+                    case 3: assign_in_own_unit(*v, (int)(tok & 0x7FFF) - 100); *n = Node::mki((int)(tok & 0x7FFF) - 100); break;
+                    case 4: assign_in_own_unit(*v, (unsigned int)(tok & 0xFFFFFF)); *n = Node::mku(tok & 0xFFFFFF); break;
+                    case 5: assign_in_own_unit(*v, (unsigned short)(tok & 0xFFFF)); *n = Node::mku(tok & 0xFFFF); break;
+                    case 6: assign_in_own_unit(*v, (short)(tok & 0xFFFF)); *n = Node::mki((short)(tok & 0xFFFF)); break;
+                    case 7: assign_in_own_unit(*v, (float)((int)(tok & 0xFF) - 100) * 0.25f); *n = Node::mkd((double)((float)((int)(tok & 0xFF) - 100) * 0.25f)); break;
+                    case 8: assign_in_own_unit(*v, (tok & 1) != 0); *n = Node::mk((tok & 1) ? Node::True : Node::False); break;
+                    case 9: assign_in_own_unit(*v, nullptr); *n = Node::mk(Node::Null); break;
+                    case 10: assign_in_own_unit(*v, (SizeT64)0xFFFFFFFFFFFFFFFFULL - (tok & 3)); *n = Node::mku(0xFFFFFFFFFFFFFFFFULL - (tok & 3)); break;
+                    default: assign_in_own_unit(*v, (SizeT64I)(INT64_MIN + (int64_t)(tok & 3))); *n = Node::mki(INT64_MIN + (int64_t)(tok & 3)); break;
                 }
                 break;
             }
@@ -698,32 +698,32 @@ struct ValW {
                 ArenaText<C> t(s0), tz(z, true);
                 LibCall      lc;
                 switch (var % 7) {
-                    case 0: *v = StrT{(const C *)t.ptr, (SizeT)t.len}; *n = Node::mks(s0); break;
+                    case 0: assign_in_own_unit(*v, StrT{(const C *)t.ptr, (SizeT)t.len}); *n = Node::mks(s0); break;
                     case 1: {
                         StrT tmp{(const C *)t.ptr, (SizeT)t.len};
-                        *v = tmp;
+                        assign_in_own_unit(*v, static_cast<const StrT &>(tmp));
                         *n = Node::mks(s0);
                         break;
                     }
-                    case 2: *v = SVT{(const C *)t.ptr, (SizeT)t.len}; *n = Node::mks(s0); break;
-                    case 3: *v = (const C *)tz.ptr; *n = Node::mks(z); break;
+                    case 2: assign_in_own_unit(*v, SVT{(const C *)t.ptr, (SizeT)t.len}); *n = Node::mks(s0); break;
+                    case 3: assign_in_own_unit(*v, (const C *)tz.ptr); *n = Node::mks(z); break;
                     case 4: {
                         StrT        tmp{(const C *)t.ptr, (SizeT)t.len};
                         const StrT *pc = &tmp;
-                        *v             = pc;
+                        assign_in_own_unit(*v, pc);
                         *n             = Node::mks(s0);
                         break;
                     }
                     case 5: {
                         StrT  tmp{(const C *)t.ptr, (SizeT)t.len};
                         StrT *pm = &tmp;
-                        *v       = pm;
+                        assign_in_own_unit(*v, pm);
                         *n       = Node::mks(s0);
                         break;
                     }
                     default: {
                         const StrT *nul = nullptr;
-                        *v              = nul; // a null string pointer assigns nothing
+                        assign_in_own_unit(*v, nul); // a null string pointer assigns nothing
                         break;
                     }
                 }
@@ -733,18 +733,20 @@ struct ValW {
                 Node payload = gen_node((var & 1) ? (tok / 9) * 9 + 7 : (tok / 9) * 9 + 8, 1, s0);
                 ArenaObj<VT> tmp;
                 build_into(tmp.p, payload, true);
+                if (n->kind == Node::String && n->str.size() > 0) qsim::probe("value.container-over-string");
+                if (n->kind == Node::Object || n->kind == Node::Array) qsim::probe("value.container-over-container");
                 {
                     LibCall lc;
                     if (payload.kind == Node::Array) {
                         if (var & 2)
-                            *v = static_cast<ArrT &&>(*tmp->GetArray());
+                            assign_in_own_unit(*v, static_cast<ArrT &&>(*tmp->GetArray()));
                         else
-                            *v = static_cast<const ArrT &>(*tmp->GetArray());
+                            assign_in_own_unit(*v, static_cast<const ArrT &>(*tmp->GetArray()));
                     } else {
                         if (var & 2)
-                            *v = static_cast<ObjT &&>(*tmp->GetObject());
+                            assign_in_own_unit(*v, static_cast<ObjT &&>(*tmp->GetObject()));
                         else
-                            *v = static_cast<const ObjT &>(*tmp->GetObject());
+                            assign_in_own_unit(*v, static_cast<const ObjT &>(*tmp->GetObject()));
                     }
                     tmp->~VT();
                 }
@@ -756,7 +758,7 @@ struct ValW {
                 Node copy = deep_copy(*sn);
                 {
                     LibCall lc;
-                    *v = static_cast<const VT &>(*src);
+                    assign_in_own_unit(*v, static_cast<const VT &>(*src));
                 }
                 *n = copy;
                 break;
@@ -766,7 +768,7 @@ struct ValW {
                 Node moved = *sn;
                 {
                     LibCall lc;
-                    *v = static_cast<VT &&>(*src);
+                    assign_in_own_unit(*v, static_cast<VT &&>(*src));
                 }
                 *n  = moved;
                 *sn = Node{};
@@ -774,7 +776,7 @@ struct ValW {
             }
             case V_SELF_ASSIGN: {
                 LibCall lc;
-                *v = static_cast<const VT &>(*v);
+                assign_in_own_unit(*v, static_cast<const VT &>(*v));
                 break;
             }
             case V_ASSIGN_OWN_TEXT: {
@@ -810,35 +812,35 @@ struct ValW {
                 qsim::probe("value.assign-own-text");
                 LibCall lc;
                 switch (var % 5) {
-                    case 0: *v = SVT{own->First() + off, (SizeT)cnt}; *n = Node::mks(text.substr(off, cnt)); break;
+                    case 0: assign_in_own_unit(*v, SVT{own->First() + off, (SizeT)cnt}); *n = Node::mks(text.substr(off, cnt)); break;
                     case 1: {
                         U32 rest = text.substr(off);
-                        *v       = (const C *)(own->First() + off); // NUL-terminated tail of the owned string
+                        assign_in_own_unit(*v, (const C *)(own->First() + off)); // NUL-terminated tail of the owned string
                         *n       = Node::mks(rest.substr(0, rest.find(U'\0')));
                         break;
                     }
-                    case 2: *v = static_cast<const StrT &>(*own); *n = Node::mks(text); break;
-                    case 3: *v = own; *n = Node::mks(text); break;
-                    default: *v = SVT{own->First(), own->Length()}; *n = Node::mks(text); break;
+                    case 2: assign_in_own_unit(*v, static_cast<const StrT &>(*own)); *n = Node::mks(text); break;
+                    case 3: assign_in_own_unit(*v, own); *n = Node::mks(text); break;
+                    default: assign_in_own_unit(*v, SVT{own->First(), own->Length()}); *n = Node::mks(text); break;
                 }
                 break;
             }
             case V_APPEND_SCALAR: {
                 LibCall lc;
                 switch (var % 8) {
-                    case 0: *v += (SizeT64)tok; m_append(*n, Node::mku(tok)); break;
-                    case 1: *v += (SizeT64I)(-(int64_t)(tok >> 1)); m_append(*n, Node::mki(-(int64_t)(tok >> 1))); break;
+                    case 0: append_in_own_unit(*v, (SizeT64)tok); m_append(*n, Node::mku(tok)); break;
+                    case 1: append_in_own_unit(*v, (SizeT64I)(-(int64_t)(tok >> 1))); m_append(*n, Node::mki(-(int64_t)(tok >> 1))); break;
                     case 2: {
                         double d = some_double(tok);
-                        *v += d;
+                        append_in_own_unit(*v, d);
                         m_append(*n, Node::mkd(d));
                         break;
                     }
-                    case 3: *v += (int)(tok & 0xFFFF) - 5; m_append(*n, Node::mki((int)(tok & 0xFFFF) - 5)); break;
-                    case 4: *v += (unsigned int)(tok & 0xFFFF); m_append(*n, Node::mku(tok & 0xFFFF)); break;
-                    case 5: *v += (tok & 1) != 0; m_append(*n, Node::mk((tok & 1) ? Node::True : Node::False)); break;
-                    case 6: *v += nullptr; m_append(*n, Node::mk(Node::Null)); break;
-                    default: *v += (float)(tok & 0xFF) * 0.5f; m_append(*n, Node::mkd((double)((float)(tok & 0xFF) * 0.5f))); break;
+                    case 3: append_in_own_unit(*v, (int)(tok & 0xFFFF) - 5); m_append(*n, Node::mki((int)(tok & 0xFFFF) - 5)); break;
+                    case 4: append_in_own_unit(*v, (unsigned int)(tok & 0xFFFF)); m_append(*n, Node::mku(tok & 0xFFFF)); break;
+                    case 5: append_in_own_unit(*v, (tok & 1) != 0); m_append(*n, Node::mk((tok & 1) ? Node::True : Node::False)); break;
+                    case 6: append_in_own_unit(*v, nullptr); m_append(*n, Node::mk(Node::Null)); break;
+                    default: append_in_own_unit(*v, (float)(tok & 0xFF) * 0.5f); m_append(*n, Node::mkd((double)((float)(tok & 0xFF) * 0.5f))); break;
                 }
                 break;
             }
@@ -847,15 +849,15 @@ struct ValW {
                 ArenaText<C> t(s0), tz(z, true);
                 LibCall      lc;
                 switch (var % 4) {
-                    case 0: *v += StrT{(const C *)t.ptr, (SizeT)t.len}; m_append(*n, Node::mks(s0)); break;
+                    case 0: append_in_own_unit(*v, StrT{(const C *)t.ptr, (SizeT)t.len}); m_append(*n, Node::mks(s0)); break;
                     case 1: {
                         StrT tmp{(const C *)t.ptr, (SizeT)t.len};
-                        *v += tmp;
+                        append_in_own_unit(*v, tmp);
                         m_append(*n, Node::mks(s0));
                         break;
                     }
-                    case 2: *v += SVT{(const C *)t.ptr, (SizeT)t.len}; m_append(*n, Node::mks(s0)); break;
-                    default: *v += (const C *)tz.ptr; m_append(*n, Node::mks(z)); break;
+                    case 2: append_in_own_unit(*v, SVT{(const C *)t.ptr, (SizeT)t.len}); m_append(*n, Node::mks(s0)); break;
+                    default: append_in_own_unit(*v, (const C *)tz.ptr); m_append(*n, Node::mks(z)); break;
                 }
                 break;
             }
@@ -867,14 +869,14 @@ struct ValW {
                     LibCall lc;
                     if (payload.kind == Node::Array) {
                         if (var & 2)
-                            *v += static_cast<ArrT &&>(*tmp->GetArray());
+                            append_in_own_unit(*v, static_cast<ArrT &&>(*tmp->GetArray()));
                         else
-                            *v += static_cast<const ArrT &>(*tmp->GetArray());
+                            append_in_own_unit(*v, static_cast<const ArrT &>(*tmp->GetArray()));
                     } else {
                         if (var & 2)
-                            *v += static_cast<ObjT &&>(*tmp->GetObject());
+                            append_in_own_unit(*v, static_cast<ObjT &&>(*tmp->GetObject()));
                         else
-                            *v += static_cast<const ObjT &>(*tmp->GetObject());
+                            append_in_own_unit(*v, static_cast<const ObjT &>(*tmp->GetObject()));
                     }
                     tmp->~VT();
                 }
@@ -899,7 +901,7 @@ struct ValW {
                 Node copy = deep_copy(*sn);
                 {
                     LibCall lc;
-                    *v += static_cast<const VT &>(*src);
+                    append_in_own_unit(*v, static_cast<const VT &>(*src));
                 }
                 if (n->kind == Node::Object && copy.kind == Node::Object)
                     obj_merge(*n, copy);
@@ -912,7 +914,7 @@ struct ValW {
                 Node moved = *sn;
                 {
                     LibCall lc;
-                    *v += static_cast<VT &&>(*src);
+                    append_in_own_unit(*v, static_cast<VT &&>(*src));
                 }
                 if (n->kind == Node::Object && moved.kind == Node::Object)
                     obj_merge(*n, moved);
@@ -1191,10 +1193,10 @@ struct ValW {
                 if (n->kind == Node::Object || n->kind == Node::Array || n->kind == Node::String || n->kind == Node::Ptr) return;
                 LibCall lc;
                 switch (var % 4) {
-                    case 0: *v = ValueType::True; *n = Node::mk(Node::True); break;
-                    case 1: *v = ValueType::False; *n = Node::mk(Node::False); break;
-                    case 2: *v = ValueType::Null; *n = Node::mk(Node::Null); break;
-                    default: *v = ValueType::Undefined; *n = Node{}; break;
+                    case 0: assign_in_own_unit(*v, ValueType::True); *n = Node::mk(Node::True); break;
+                    case 1: assign_in_own_unit(*v, ValueType::False); *n = Node::mk(Node::False); break;
+                    case 2: assign_in_own_unit(*v, ValueType::Null); *n = Node::mk(Node::Null); break;
+                    default: assign_in_own_unit(*v, ValueType::Undefined); *n = Node{}; break;
                 }
                 break;
             }
